@@ -6,14 +6,7 @@ import hdl21 as h
 from designlib import Builder, mk_index
 
 
-class Builder2(Builder):
-    """designlib.Builder plus one more faulty leaf: a port of an Instance that was never added to any Module."""
-
-    def expr(self, m, mi, e):
-        if e[0] == "orphanref":
-            inst = h.Instance(of=self.target(e[1]), name="orphan_inst")
-            return getattr(inst, e[2])
-        return super().expr(m, mi, e)
+from c02hist import HistBuilder as Builder2, observe      # construction histories (public reads, late width edits)
 
 
 class BBuilder:
@@ -31,11 +24,20 @@ class BBuilder:
                 B.add(h.Signal(name=n, width=w))
             self.bundles.append(B)
         self.mods = []
+        self.observe = bool((d.get("hist") or {}).get("observe"))
+        self.made = []
 
     def target(self, of):
         return self.mods[of[1]] if of[0] == "mod" else h.R(r=of[2])
 
     def expr(self, m, e):
+        o = self.expr0(m, e)
+        if self.observe:
+            self.made.append(o)
+            observe(o)
+        return o
+
+    def expr0(self, m, e):
         t = e[0]
         if t == "sig":
             return m.get(e[1])
@@ -56,6 +58,13 @@ class BBuilder:
         raise ValueError(t)
 
     def conn(self, m, c):
+        o = self.conn0(m, c)
+        if self.observe:
+            self.made.append(o)
+            observe(o)
+        return o
+
+    def conn0(self, m, c):
         t = c[0]
         if t == "x":
             return self.expr(m, c[1])
@@ -98,6 +107,12 @@ class BBuilder:
                 inst = m.get(x["name"])
                 for port, c in x["conns"]:
                     inst.connect(port, self.conn(m, c))
+        if self.observe:
+            for md, m in zip(self.d["mods"], self.mods):
+                self.made += [m.get(row[0]) for row in md["ports"] + md["bports"] + md["sigs"] + md["binsts"]]
+                self.made += [m.get(x["name"]) for x in md["insts"]]
+            for o in self.made:
+                observe(o)
         return self.mods[self.d["top"]]
 
 
